@@ -37,7 +37,7 @@ class AnalysisError(Exception):
 FuncNode = Union[ast.FunctionDef, ast.AsyncFunctionDef]
 
 
-@dataclass
+@dataclass(eq=False)
 class ModuleInfo:
     name: str                    # dotted, e.g. panqec.bpauli
     relpath: str                 # panqec/bpauli.py
@@ -54,7 +54,7 @@ class ModuleInfo:
         return f'{self.relpath}:{getattr(node, "lineno", 0)}'
 
 
-@dataclass
+@dataclass(eq=False)
 class ClassInfo:
     name: str
     module: ModuleInfo
